@@ -10,6 +10,8 @@ import (
 // byte string is the stream the property draws from (rt.FuzzProp), so generators, oracle and failure
 // signatures are exactly those of the named test.
 
-func FuzzPropArgumentsUntouched(f *testing.F) { rt.FuzzProp(f, rt.Capture(TestArgumentsUntouched)) }
-func FuzzPropHistories(f *testing.F)          { rt.FuzzProp(f, rt.Capture(TestHistories)) }
-func FuzzPropRequestObjectReuse(f *testing.F) { rt.FuzzProp(f, rt.Capture(TestRequestObjectReuse)) }
+func FuzzPropArgumentsUntouched(f *testing.F)   { rt.FuzzProp(f, rt.Capture(TestArgumentsUntouched)) }
+func FuzzPropHistories(f *testing.F)            { rt.FuzzProp(f, rt.Capture(TestHistories)) }
+func FuzzPropRequestObjectReuse(f *testing.F)   { rt.FuzzProp(f, rt.Capture(TestRequestObjectReuse)) }
+func FuzzPropConstructorArguments(f *testing.F) { rt.FuzzProp(f, rt.Capture(TestConstructorArguments)) }
+func FuzzPropBatchObjectReuse(f *testing.F)     { rt.FuzzProp(f, rt.Capture(TestBatchObjectReuse)) }
